@@ -411,3 +411,43 @@ Proof.
   destruct (parse_unsigned 255 m); [|eauto].
   destruct (nr <=? shard) eqn:E1; [eauto|]. lia.
 Qed.
+
+(* ---------------- the property predicates the driver evaluates on a mismatch ---------------- *)
+
+Lemma forallb_existsb_incl (a b : list N) :
+  forallb (fun p => existsb (N.eqb p) b) a = true <-> incl a b.
+Proof.
+  rewrite forallb_forall. unfold incl. split; intros H x Hx.
+  - apply existsb_eqb_In. now apply H.
+  - apply existsb_eqb_In. now apply H.
+Qed.
+
+Theorem prop_iter_ok_iff n s lo hi obs :
+  prop_iter_ok n s lo hi obs = true <->
+  Permutation obs (spec_ports n s lo hi) /\ NoDup obs.
+Proof.
+  unfold prop_iter_ok. rewrite !andb_true_iff, Nat.eqb_eq, !forallb_existsb_incl. split.
+  - intros [[Hlen Hsub] Hsup].
+    assert (Permutation (spec_ports n s lo hi) obs) as P.
+    { apply NoDup_Permutation_bis; [apply spec_ports_NoDup|lia|exact Hsub]. }
+    split; [symmetry; exact P|].
+    eapply Permutation_NoDup; [exact P|apply spec_ports_NoDup].
+  - intros [P ND]. repeat split.
+    + apply Permutation_length. exact P.
+    + intros x Hx. eapply Permutation_in; [symmetry; exact P|exact Hx].
+    + intros x Hx. eapply Permutation_in; [exact P|exact Hx].
+Qed.
+
+Theorem prop_draw_ok_iff n s lo hi obs : 0 < n -> s < n -> lo <= hi -> hi <= u16_max ->
+  prop_draw_ok n s lo hi obs = true <->
+  match obs with
+  | Some p => lo <= p <= hi /\ p mod n = s
+  | None => forall p, lo <= p <= hi -> p mod n <> s
+  end.
+Proof.
+  intros Hn Hs Hle Hhi. unfold prop_draw_ok. destruct obs as [p|].
+  - rewrite !andb_true_iff, !N.leb_le, N.eqb_eq. tauto.
+  - rewrite <- (ports_empty_iff n s lo hi Hn Hs Hle Hhi).
+    rewrite (ports_for_shard_spec n s lo hi Hn Hs Hle Hhi).
+    destruct (spec_ports n s lo hi); split; intros H; (reflexivity || discriminate || assumption).
+Qed.
